@@ -1,8 +1,110 @@
-(** C05 -- JSON round trip and validity of generated Go code.  Property theorems only (placeholder while the
-    proofs are being written). *)
-From TLV Require Import Json.JsonModel.
+(** C05 -- JSON round trip and validity of generated Go code.  Property theorems only; each is closed by
+    [exact] of a lemma from Json/Json*.v and followed by [Print Assumptions].
+    Model: Json/JsonModel.v ([jsonw] = WriteJSONOpt, [jsonr] = ReadJSONGeneral observed through WriteTL1,
+    [jprint] = the text; transcription of internal/puregen/gengo/qt_struct|union|maybe|brackets|dict|helpers.qtpl),
+    over the schema IR and wire values of Tl1/Tl1Model.v; primitive texts from Jprim (C34).
+    [valid_json_text] is the RFC 8259 recogniser of Jprim/JprimModel.v.
+    strconv.AppendFloat / ParseFloat are NOT modelled: [ffmt] / [fparse] are parameters with the two hypotheses
+    spelled out in the statements (validated by the correspondence run on every float that occurs). *)
+From TLV Require Import Prim.PrimModel Tl1.Tl1Model Jprim.JprimModel
+  Json.JsonModel Json.JsonText Json.JsonProofs Json.JsonRoundtrip.
 Open Scope N_scope.
 
-Theorem C05_placeholder : jprint (JObj []) = [123; 125].
-Proof. reflexivity. Qed.
-Print Assumptions C05_placeholder.
+(** (a) tree to text: a well-formed tree (numbers follow the number grammar, strings and member names are valid
+    UTF-8 strings) is printed as a valid JSON text *)
+Theorem C05_wellformed_tree_prints_valid_json : forall j, jvalid j = true -> valid_json_text (jprint j) = true.
+Proof. exact jvalid_text. Qed.
+Print Assumptions C05_wellformed_tree_prints_valid_json.
+
+(** (a) value to tree: whatever the writer emits for whatever value of whatever type of a well-formed schema is a
+    well-formed tree -- except that with a string-keyed dictionary in the schema a member name may be an object *)
+Theorem C05_written_tree_wellformed : forall ffmt js,
+  (forall is64 b, ffinite is64 b = true -> num_ok (ffmt is64 b) = true) ->
+  wf_jschema js = true ->
+  forall v t ps j, jsonw ffmt js t ps v = Some j -> jvalidk (no_str_dict js) j = true.
+Proof. exact jsonw_valid. Qed.
+Print Assumptions C05_written_tree_wellformed.
+
+Theorem C05_written_text_valid_json : forall ffmt js,
+  (forall is64 b, ffinite is64 b = true -> num_ok (ffmt is64 b) = true) ->
+  wf_jschema js = true ->
+  forall t ps v j, no_str_dict js = true -> jsonw ffmt js t ps v = Some j -> valid_json_text (jprint j) = true.
+Proof. exact jsonw_text_valid. Qed.
+Print Assumptions C05_written_text_valid_json.
+
+(** (b) round trip -- full statement wanted: for every value, reading the written JSON gives a value with the same
+    TL1 / TL2 / JSON encodings.  That is FALSE of the faithful model (three refutations below); proved here for
+    every value without the four constructs [jdiag] lists (-0.0 in an omittable position, NaN payload, dictionary
+    string key that is not valid UTF-8 or that the escaper changes): the value read back is the value itself, so
+    every re-encoding coincides.  Floats under the strconv oracle hypotheses. *)
+Theorem C05_roundtrip_partial : forall ffmt fparse js,
+  (forall is64 b, ffinite is64 b = true -> num_ok (ffmt is64 b) = true) ->
+  (forall is64 b, ffinite is64 b = true -> fparse is64 (ffmt is64 b) = Some b) ->
+  wf_jschema js = true ->
+  forall t ps v j fuel, (vdepth v < fuel)%nat ->
+    jsonw ffmt js t ps v = Some j -> jdiag js t ps false v = [] ->
+    jsonr fparse js fuel t ps (Some j) = JOk v.
+Proof. exact jsonw_jsonr. Qed.
+Print Assumptions C05_roundtrip_partial.
+
+(** ** refutations of the full statement (replayed on the generated code, see known_findings.json) *)
+Definition n_dict : bytes := [100; 105; 99; 116].
+Definition n_key : bytes := [107; 101; 121].
+Definition no_fmt (_ : bool) (_ : N) : bytes := [48].
+Definition no_parse (_ : bool) (_ : bytes) : option N := None.
+
+(** cases.testDictString dict:(dictionary int) *)
+Definition js_dict : jschema :=
+  [ (TPrim PInt, ANone);
+    (TPrim PString, ANone);
+    (TStruct 0 [mkField 1 true None []; mkField 0 true None []], AStruct false false [mkJF n_key false; mkJF s_value false]);
+    (TDict PString (mkField 2 true None []), ANone);
+    (TStruct 3301230491 [mkField 3 true None []], AStruct false false [mkJF n_dict false]) ].
+
+Definition dict1 (k : bytes) : value := VStruct [Some (VArr [VStruct [Some (VStr k); Some (VNum 7)]])].
+
+(** F9: a key that is not valid UTF-8 is written as an object in key position: not JSON *)
+Theorem jsonw_refuted_dict_key : exists js t v j,
+  wf_jschema js = true /\ jsonw no_fmt js t [] v = Some j /\ valid_json_text (jprint j) = false
+  /\ jsonr no_parse js 10 t [] (Some j) = JReject.
+Proof. exists js_dict, 4%nat, (dict1 [255]). eexists. repeat split; vm_compute; reflexivity. Qed.
+Print Assumptions jsonw_refuted_dict_key.
+
+(** F17: a key the escaper changes (here the three bytes a, double quote, b) is read back as its escaped text: another value *)
+Theorem jsonw_refuted_dict_key_escape : exists js t v j v',
+  wf_jschema js = true /\ jsonw no_fmt js t [] v = Some j /\ valid_json_text (jprint j) = true
+  /\ jsonr no_parse js 10 t [] (Some j) = JOk v' /\ enc1 false (sch js) t false [] v' <> enc1 false (sch js) t false [] v.
+Proof.
+  exists js_dict, 4%nat, (dict1 [97; 34; 98]). eexists. eexists.
+  split; [vm_compute; reflexivity|]. split; [vm_compute; reflexivity|]. split; [vm_compute; reflexivity|].
+  split; [vm_compute; reflexivity|]. vm_compute. discriminate.
+Qed.
+Print Assumptions jsonw_refuted_dict_key_escape.
+
+(** F16: -0.0 in a non-optional field counts as empty, is omitted and comes back as +0.0 *)
+Definition js_dbl : jschema :=
+  [ (TPrim PDouble, ANone);
+    (TStruct 1 [mkField 0 true None []], AStruct false false [mkJF n_key false]) ].
+
+Theorem jsonw_refuted_negzero : exists js t v j v',
+  wf_jschema js = true /\ jsonw no_fmt js t [] v = Some j /\ jsonr no_parse js 10 t [] (Some j) = JOk v'
+  /\ enc1 false (sch js) t false [] v' <> enc1 false (sch js) t false [] v.
+Proof.
+  exists js_dbl, 1%nat, (VStruct [Some (VNum 9223372036854775808)]). eexists. eexists.
+  split; [vm_compute; reflexivity|]. split; [vm_compute; reflexivity|]. split; [vm_compute; reflexivity|].
+  vm_compute. discriminate.
+Qed.
+Print Assumptions jsonw_refuted_negzero.
+
+(** ** the statements are not vacuous *)
+Example ex_roundtrip_instance :
+  jdiag js_dict 4 [] false (dict1 [97; 98]) = []
+  /\ option_map jprint (jsonw no_fmt js_dict 4 [] (dict1 [97; 98]))
+     = Some [123; 34; 100; 105; 99; 116; 34; 58; 123; 34; 97; 98; 34; 58; 55; 125; 125]      (* {"dict":{"ab":7}} *)
+  /\ (forall j, jsonw no_fmt js_dict 4 [] (dict1 [97; 98]) = Some j -> jsonr no_parse js_dict 10 4 [] (Some j) = JOk (dict1 [97; 98])).
+Proof. split; [reflexivity|]. split; [vm_compute; reflexivity|]. intros j H. vm_compute in H. injection H as <-. vm_compute. reflexivity. Qed.
+
+Example ex_diag_names_the_defects :
+  jdiag js_dict 4 [] false (dict1 [255]) = [3] /\ jdiag js_dict 4 [] false (dict1 [97; 34; 98]) = [4]
+  /\ jdiag js_dbl 1 [] false (VStruct [Some (VNum 9223372036854775808)]) = [1].
+Proof. repeat split; vm_compute; reflexivity. Qed.
